@@ -74,6 +74,66 @@ Section Pantr.
   Definition set_x (i : iterate) (x : list T) : iterate :=
     mkIt x (ixh i) (igrad i) (igradh i) (ip i) (iyh i) (ipsi i) (ipsih i) (igam i) (iL i) (ipp i) (igp i) (ih i) (ihave i).
 
+  Definition trtuple : Type := (iterate * list T * T * option T * bool * counters * stats * bool)%type.
+  (* "Solve TR subproblem and update radius": (cand, q, Δ, ρ, accept_candidate, counters, stats, fuel-ok) *)
+  Definition tr_step (s : tstate) (prox : iterate) (c4 : counters) (accelerated : bool) : trtuple :=
+    if accelerated && negb (tp_disable_accel TP) then
+      let qa := tr_apply (c_apply c4) prox (ts_delta s) in
+      let q := fst qa in
+      let c5 := inc_apply c4 in
+      let finite := vall_finite q in
+      let qm := snd qa in
+      let stats1 := if negb finite then inc_dfail (ts_stats s) else if n0 <=? qm then inc_dfail (ts_stats s) else ts_stats s in
+      if finite && (qm <? n0) then
+        (* compute_candidate_fbe(q) *)
+        let cand0 := eprox (eval_psi_grad psi_grad_full (set_gamma_L (set_x (ts_cand s) (vadd (ix prox) q)) (igam prox) (iL prox))) in
+        let c6 := inc_pg c5 in
+        let bt := if tp_ratio_new_step TP then backtrack (ecost cand0) (inc_py c6) stats1 else Some (cand0, c6, stats1) in
+        match bt with
+        | None => (ts_cand s, q, ts_delta s, ts_rho s, false, c6, stats1, false)
+        | Some (cand1, c7, stats2) =>
+            let ρ := tr_ratio (tp_ratio_approx TP) (it_fbe prox) (it_fbe cand1) qm (tp_tr_tol TP) (p_Lgamma P) in
+            (cand1, q, updated_radius q ρ (ts_delta s), Some ρ, tp_thr_acc TP <=? ρ, c7, stats2, true)
+        end
+      else (ts_cand s, q, ts_delta s, ts_rho s, false, c5, stats1, true)
+    else (ts_cand s, ts_q s, ts_delta s, ts_rho s, false, c4, ts_stats s, true).
+
+  (* progress callback, then "Accept TR step" / "Fall back to proximal gradient step", ++k *)
+  Definition finish_iter (s : tstate) (curr prox : iterate) (gbuf2 : list T) (ε : T) (accelerated : bool) (r : trtuple) : tpass_result :=
+    let '(cand, q, Δ, ρ, acc, c8, stats3, ok) := r in
+    let k := ts_k s in
+    if negb ok then TFuel else
+    let rec := mkTrec k curr gbuf2 q (Some Δ) ρ acc ε StBusy in
+    let c9 := inc_cb c8 in
+    if acc then
+      let bt := if tp_ratio_new_step TP then Some (cand, c9, stats3) else backtrack (ecost cand) (inc_py c9) stats3 in
+      match bt with
+      | None => TFuel
+      | Some (cand2, c10, stats4) =>
+          (* γ changed + recompute: prox gets cand's (γ, L) and a new step — observed by direction.update only *)
+          let prox2 := if negb (igam prox =? igam cand2) && p_recompute P then eprox (set_gamma_L prox (igam cand2) (iL cand2)) else prox in
+          let c11 := inc_dir c10 in                               (* direction.update *)
+          (* swap(curr, cand) *)
+          TCont (mkTs cand2 prox2 curr gbuf2 (S k) q Δ ρ acc c11 stats4 (rec :: ts_log s))
+      end
+    else
+      let stats4 := if accelerated then mkStats (s_stepsize_bt stats3) (s_ls_bt stats3) (S (s_ls_fail stats3)) (s_dir_fail stats3)
+                                               (s_tau1 stats3) (s_count_tau stats3) (s_sum_tau stats3) else stats3 in
+      match backtrack (ecost prox) (inc_py c9) stats4 with
+      | None => TFuel
+      | Some (prox2, c10, stats5) =>
+          let curr2 := if negb (igam prox2 =? igam curr) && p_recompute P then eprox (set_gamma_L curr (igam prox2) (iL prox2)) else curr in
+          let c11 := if tp_upd_on_prox TP then inc_dir c10 else c10 in
+          (* swap(curr, prox) *)
+          TCont (mkTs prox2 curr2 cand gbuf2 (S k) q Δ ρ acc c11 stats5 (rec :: ts_log s))
+      end.
+
+  (* compute_FBS_step: prox from curr (x = x̂ₖ, γ, L of curr; ψ, ∇ψ re-evaluated there; prox step) *)
+  Definition fbs_iterate (curr prox0 : iterate) (gbuf1 : list T) : iterate :=
+    eprox (eval_psi_grad psi_grad_full
+             (mkIt (ixh curr) (ixh prox0) gbuf1 (igradh prox0) (ip prox0) (iyh prox0) (ipsih curr) (ipsih prox0)
+                   (igam curr) (iL curr) (ipp prox0) (igp prox0) (ih prox0) (ihave prox0))).
+
   Definition tpass (s : tstate) : tpass_result :=
     let curr := ts_curr s in
     let need := crit_needs_gradh (p_crit P) in
@@ -88,70 +148,14 @@ Section Pantr.
     let st := stop_status_helpers (o_tol P) ε te k (p_max_iter P) 0 (p_max_no_progress P) sr in
     match st with
     | StBusy =>
-        (* compute_FBS_step *)
         let gbuf1 := if need then gbuf0 else grad_L (ixh curr) (iyh curr) in
         let c2 := if need then c1 else inc_gl c1 in
-        let prox0 := ts_prox s in
-        let gbuf2 := igrad prox0 in                                    (* prox->grad_ψ.swap(grad_ψx̂) *)
-        let prox1 := mkIt (ixh curr) (ixh prox0) gbuf1 (igradh prox0) (ip prox0) (iyh prox0) (ipsih curr) (ipsih prox0)
-                          (igam curr) (iL curr) (ipp prox0) (igp prox0) (ih prox0) (ihave prox0) in
-        let prox := eprox (eval_psi_grad psi_grad_full prox1) in       (* eval_ψ_grad_ψ(prox); eval_prox_grad_step(prox) *)
+        let gbuf2 := igrad (ts_prox s) in                               (* prox->grad_ψ.swap(grad_ψx̂) *)
+        let prox := fbs_iterate curr (ts_prox s) gbuf1 in
         let c3 := inc_pg c2 in
         let c4 := if (k =? 0)%nat then inc_dir c3 else c3 in           (* direction.initialize *)
         let accelerated := (0 <? k)%nat || has_initial in
-        (* TR subproblem *)
-        let no_cand := (ts_cand s, ts_q s, ts_delta s, ts_rho s, false, c4, ts_stats s, Some (ts_cand s)) in
-        let r :=
-          if accelerated && negb (tp_disable_accel TP) then
-            let qa := tr_apply (c_apply c4) prox (ts_delta s) in
-            let q := fst qa in
-            let c5 := inc_apply c4 in
-            let finite := vall_finite q in
-            let qm := snd qa in
-            let stats1 := if negb finite then inc_dfail (ts_stats s) else if n0 <=? qm then inc_dfail (ts_stats s) else ts_stats s in
-            if finite && (qm <? n0) then
-              (* compute_candidate_fbe(q) *)
-              let cand0 := eprox (with_gl (eval_psi_grad psi_grad_full (set_x (ts_cand s) (vadd (ix prox) q))) (igam prox) (iL prox)) in
-              let c6 := inc_pg c5 in
-              let bt := if tp_ratio_new_step TP then backtrack (ecost cand0) (inc_py c6) stats1 else Some (cand0, c6, stats1) in
-              match bt with
-              | None => (ts_cand s, q, ts_delta s, ts_rho s, false, c6, stats1, None)
-              | Some (cand1, c7, stats2) =>
-                  let ρ := tr_ratio (tp_ratio_approx TP) (it_fbe prox) (it_fbe cand1) qm (tp_tr_tol TP) (p_Lgamma P) in
-                  let acc := tp_thr_acc TP <=? ρ in
-                  (cand1, q, updated_radius q ρ (ts_delta s), Some ρ, acc, c7, stats2, Some cand1)
-              end
-            else (ts_cand s, q, ts_delta s, ts_rho s, false, c5, stats1, Some (ts_cand s))
-          else no_cand in
-        let '(cand, q, Δ, ρ, acc, c8, stats3, ok) := r in
-        match ok with
-        | None => TFuel
-        | Some _ =>
-          let rec := mkTrec k curr gbuf2 q (Some Δ) ρ acc ε StBusy in
-          let c9 := inc_cb c8 in
-          if acc then
-            let bt := if tp_ratio_new_step TP then Some (cand, c9, stats3) else backtrack (ecost cand) (inc_py c9) stats3 in
-            match bt with
-            | None => TFuel
-            | Some (cand2, c10, stats4) =>
-                (* γ changed + recompute: prox gets cand's (γ, L) and a new step — observed by direction.update only *)
-                let prox2 := if negb (igam prox =? igam cand2) && p_recompute P then eprox (with_gl prox (igam cand2) (iL cand2)) else prox in
-                let c11 := inc_dir c10 in                               (* direction.update *)
-                (* swap(curr, cand) *)
-                TCont (mkTs cand2 prox2 curr gbuf2 (S k) q Δ ρ acc c11 stats4 (rec :: ts_log s))
-            end
-          else
-            let stats4 := if accelerated then mkStats (s_stepsize_bt stats3) (s_ls_bt stats3) (S (s_ls_fail stats3)) (s_dir_fail stats3)
-                                                     (s_tau1 stats3) (s_count_tau stats3) (s_sum_tau stats3) else stats3 in
-            match backtrack (ecost prox) (inc_py c9) stats4 with
-            | None => TFuel
-            | Some (prox2, c10, stats5) =>
-                let curr2 := if negb (igam prox2 =? igam curr) && p_recompute P then eprox (with_gl curr (igam prox2) (iL prox2)) else curr in
-                let c11 := if tp_upd_on_prox TP then inc_dir c10 else c10 in
-                (* swap(curr, prox) *)
-                TCont (mkTs prox2 curr2 cand gbuf2 (S k) q Δ ρ acc c11 stats5 (rec :: ts_log s))
-            end
-        end
+        finish_iter s curr prox gbuf2 ε accelerated (tr_step s prox c4 accelerated)
     | _ =>
         let rec := mkTrec k curr gbuf0 [] None None (ts_acc s) ε st in
         let c2 := inc_cb c1 in
